@@ -21,7 +21,7 @@ Entries == {"aperture_photometry", "do_photometry", "aperture_mask", "aperture_s
             "find_peaks", "daofinder", "iraffinder", "starfinder", "centroids", "centroid_sources", "profiles", "psf_photometry",
             "iterative_psf", "calc_total_error", "utils", "morphology", "aperture_mask_edge", "stats_large",
             "aperture_photometry_subpixel", "sky_apertures", "annuli", "fit_gaussian", "psf_matching", "datasets", "harmonics", "interpolators", "segment_cutouts"}
-Reps == {"i8", "i2", "u2", "f4", "bigendian", "fortran", "strided", "ma_nomask", "ma_allfalse", "nddata", "quantity", "mixed_units"}
+Reps == {"i8", "i2", "u2", "f4", "bigendian", "fortran", "strided", "ma_nomask", "ma_allfalse", "nddata", "quantity", "mixed_units", "convertible_units"}
 NDDataEntries == {"aperture_photometry_subpixel", "aperture_photometry", "aperture_stats", "psf_photometry"}
 \* entry points whose outputs are in data units (so Quantity inputs must give Quantity outputs)
 UnitEntries == {"aperture_photometry_subpixel", "aperture_mask_edge", "sky_apertures", "annuli", "interpolators", "segment_cutouts", "aperture_photometry", "do_photometry", "aperture_stats", "background2d", "local_background", "detect_threshold",
@@ -37,6 +37,8 @@ Expect(e, r) == CASE e \in {"background2d", "interpolators"} /\ r \in {"i8", "i2
                   [] r = "nddata" -> IF e \in NDDataEntries THEN "same" ELSE "skip"
                   [] r = "quantity" -> IF e \in UnitEntries THEN "units" ELSE "same"
                   [] r = "mixed_units" -> IF e \in ErrorEntries THEN "raise" ELSE "skip"
+                  \* data in Jy, companion arrays in mJy (the same physical values): refused, or the same physical result
+                  [] r = "convertible_units" -> IF e \in ErrorEntries THEN "raise_or_same" ELSE "skip"
                   [] OTHER -> "same"
 \* tolerance in units of 2^-20 relative: float32 holds the integer-valued test data exactly, but results computed in float32 precision
 \* are allowed float32 rounding; memory layout may change the order of reductions
@@ -49,6 +51,8 @@ Clause(c) ==
   IF <<c.entry, c.rep>> \notin Programs THEN "unknown_program"
   ELSE IF ~c.ref_ok THEN "reference_call_failed"
   ELSE IF ex = "raise" THEN (IF c.raised THEN "ok" ELSE "mixing_unitful_and_unitless_inputs_must_be_rejected")
+  ELSE IF ex = "raise_or_same" THEN (IF c.raised THEN "ok"
+                                      ELSE IF ~c.struct_equal \/ c.maxdev > 4 THEN "convertible_units_are_refused_or_give_the_same_physical_result" ELSE "ok")
   ELSE IF c.raised THEN "valid_representation_makes_the_call_fail"
   ELSE IF ~c.struct_equal THEN "integer_and_structural_outputs_identical"
   ELSE IF ex = "rounded" THEN (IF c.maxabs > 2200 THEN "integer_input_rounds_the_background_maps" ELSE "ok")     \* meshes and maps are cast to the integer dtype: |dev| <= 2 (units of 1/1024)
